@@ -152,11 +152,11 @@ FileAddFile(f, g) == /\ Step /\ Len(files[f].body) < MaxItems /\ f \notin FReach
 DoImportName(f, p, n) ==
   /\ Step /\ H("ImportName", f, 0, 0, p, n, <<>>)
   /\ files' = [files EXCEPT ![f].hints = Put(@, p, Def(n, FALSE)),
-                            ![f].claims = IF p = "C" THEN @ ELSE Put(@, p, Find2(@, p) \cup {n})]
+                            ![f].claims = IF p = "C" \/ n = "" THEN @ ELSE Put(@, p, Find2(@, p) \cup {n})]
   /\ UNCHANGED <<cells, ntok, obs, bound>>
 ImportName(f, p, n) ==
-  /\ PathInfo[p].std # "" => n = PathInfo[p].std
-  /\ Find2(files[f].claims, p) \subseteq {n}
+  /\ (PathInfo[p].std # "" /\ n # "") => n = PathInfo[p].std
+  /\ n = "" \/ Find2(files[f].claims, p) \subseteq {n}
   /\ DoImportName(f, p, n)
 ImportAlias(f, p, n) ==
   /\ Step /\ H("ImportAlias", f, 0, 0, p, n, <<>>)
@@ -286,4 +286,11 @@ Sys_CloneIsolation ==
        (hist' # hist /\ hist'[Len(hist')].a \in {"AppId", "AppDot", "AppQual", "AppGroup", "AddRef"} /\ c \notin Reach(cells', hist'[Len(hist')].c)
           /\ hist'[Len(hist')].c \notin Reach(cells, c))
          => Tree(cells', c) = Tree(cells, c)]_vars
+\* C09 / C20: what a File renders depends only on its own contents - an append to a statement that no body item of the File
+\* reaches (a sibling clone of one of them, say) leaves every body item's tree unchanged
+Sys_ContentsOnly ==
+  [][\A f \in DOMAIN files :
+       (hist' # hist /\ hist'[Len(hist')].a \in {"AppId", "AppDot", "AppQual", "AppGroup", "AddRef"}
+          /\ hist'[Len(hist')].c \notin UNION {Reach(cells, b) : b \in BodyCells(f)})
+         => \A b \in BodyCells(f) : Tree(cells', b) = Tree(cells, b)]_vars
 =============================================================================
